@@ -96,6 +96,7 @@ func (p *program) contractA() string {
 	sb.WriteString("            pre { " + p.condA[0].cdc("", "") + " }\n")
 	sb.WriteString("            post { " + p.condA[1].cdc("", "") + " }\n        }\n    }\n")
 	sb.WriteString("    access(all) view fun yes(): Bool { return true }\n    access(all) view fun no(): Bool { return false }\n")
+	sb.WriteString("    access(all) view fun optInt(_ x: Int): Int? { return x }\n    access(all) view fun optString(_ x: String): String? { return x }\n")
 	sb.WriteString("    access(all) fun emitAll() {\n")
 	for _, e := range p.emitsA {
 		sb.WriteString("        " + e.cdc("", "") + "\n")
